@@ -7,6 +7,7 @@ import MW.Model.Import
 import MW.Spec.Chain
 import MW.Lemmas.ImportPlan
 import MW.Lemmas.LedgerStatus
+import MW.Lemmas.ImportLive
 namespace MW.Props.C07
 open MW MW.Model.Ledger MW.Model.Import MW.Lemmas.ImportPlan
 
@@ -442,6 +443,17 @@ theorem pullBack_is_ledger (s : Store) (height : Nat) :
       | some h => if h > height - 1 then (e.1, { e.2 with synced := some (height - 1) }) else e
       | none => e) := rfl
 
+-- ------------------------------------------------------------------ the rescan's per-transaction step is the live one
+
+/-- **import_tx_eq_live.** When the store has no record of the transaction yet and the block record at that
+    height — if any — is this block's and lists only earlier transactions of the block (`FreshAt`; true for every
+    item of a plan applied to a store that followed the same chain), `addRelevantTxForImporting` and the live
+    `addRelevantMined` succeed together and give the same store and balances. -/
+theorem import_tx_eq_live (p : Params) (own : Own) (s : Store) (bals : Bals) (tr : TxRec) (blk : BlockMeta)
+    (h : Lemmas.ImportLive.FreshAt s tr blk) :
+    (addRelevantTxForImporting p own s bals tr blk).toOption = (addRelevantMined p own s bals tr blk).toOption :=
+  Lemmas.ImportLive.add_eq_live p own s bals tr blk h
+
 -- ------------------------------------------------------------------ the full statement (not proved)
 
 /-- what can happen while a wallet is importing: the worker runs a batch, the follower handles a notification
@@ -477,11 +489,25 @@ def stepEv (batch : Nat) (p : Params) (own : Own) (wallets : List Wid) (w : Wid)
       · the content of a batch: `import_plan_exact` — exactly the node's transactions touching the wallet;
       · the chain read is the follower's own: `batchHead_ok` + `followed_chain_agrees`;
       · cursors under reorganisation: `pullBack_spec`.
-    MISSING: (1) that applying a planned transaction with `addRelevantTxForImporting` changes the wallet's buckets
-    the way `MW.Spec.Chain.applyTx` changes the specification ledger, and that `rollback` undoes it — these are the
-    per-transaction obligations of C01 (`connect_sound`, `rollback_connect`), not yet proved for MW.Model.Ledger;
-    (2) the frame of `processBlock` on a wallet that is not ready.  Both are covered by the three-way differential
-    runs (implementation = model = `ledgerOf` after every import, also under reorganisations and flip-flops). -/
+      · the per-transaction step: `import_tx_eq_live` — on a transaction the store has not recorded yet the rescan's
+        `addRelevantTxForImporting` IS the live follower's `addRelevantMined`, so the ledger library's
+        `spendOne_refines` / `creditOne_refines` / `applyPhase_refines` (C01) are facts about the rescan too.
+    STILL MISSING, now that C01's `Inv`, `connect_sound`, `rollback_connect`, `reorg_reaches` exist:
+    (1) RECORDS: that `filterTxForImporting` on the items of `plan` yields, block by block, records satisfying the
+        library's `Matches p own_w B (occsOfBlock b)` for `own_w` = the keystore being restored (the library proves
+        this for the live `filterTxs` — `filterTxs_block` under `FilterCtx` — whose previous-output lookup is gated
+        by `existCreditFromTx` and reads `Node.fetchTx`, where the rescan reads `fetchTxUntil`);
+    (2) INVARIANT WITH A WALLET THAT IS NOT READY: `Inv` / `connect_sound` / `reorg_reaches` assume
+        `AllReady c.own ready` (every keystore's wallet is ready).  While a wallet imports, the follower books the
+        ready wallets only, the rescan books the importing one up to its cursor, and `rollback` (which looks
+        addresses up in ALL keystores) undoes both: the invariant needed is the pair "books of the ready wallets for
+        the followed chain" + "books of the importing wallet for the chain up to its cursor", preserved by
+        `filterBlock`, `rollback`/`disconnectBlock` (with `pullBack`) and `importStep`;
+    (3) PENDING SIDE: the rescan calls `removeDoubleSpends` with the global keystore table while (1)–(2) reason with
+        the restricted one; the two differ on pending buckets only (`MinedEq`), which needs a congruence lemma for
+        `addRelevantMined` modulo `MinedEq`.
+    The three-way differential runs cover all of this (implementation = model = `ledgerOf` after every import, also
+    under reorganisations at / below / above the cursor and flip-flops). -/
 def import_exact_full : Prop :=
   ∀ (batch : Nat) (p : Params) (own : Own) (wallets : List Wid) (w : Wid) (sys0 : Sys) (evs : List Ev) (minConf : Nat),
     batch > 0 →
@@ -530,6 +556,9 @@ example : (match importStep 1 ctx "W1" st vol with
 example : ((runBatches 1 ctx "W1" 5 st vol).map (fun r => (r.2.2.map (·.tx.id), useWallet r.1 ctx.wallets "W1"))) =
     some (["C1", "T3"], .ok) := by decide
 example : (plan ctx.node ["A1"] 1 3).map (fun it => (it.blk.height, it.pos, it.tx.id)) = [(1, 0, "C1"), (2, 1, "T3")] := by decide
+/-- `FreshAt` is satisfiable: nothing is recorded yet for C1 in B1 -/
+example : Lemmas.ImportLive.FreshAt st { tx := c1, loc := ("B1", 0) } ⟨1, "B1"⟩ :=
+  ⟨rfl, by intro h txs hg; simp [st, AMap.get] at hg⟩
 /-- the followed-chain check: if the node has moved to another block at the top of the range, the batch is put
     off (ErrImportingContinuable) and nothing changes -/
 example : (match importStep 1000 { ctx with node := { ctx.node with chain := [g, b1, b2, ⟨"B3x", "B2", 3, [c4]⟩] } } "W1" st vol with
